@@ -124,7 +124,7 @@ func c07Alphabet() []c07Op {
 	u := func(s string) c07Op { return c07Op{text: s, unordered: true} }
 	return []c07Op{
 		o(`where a==1`), o(`where k>1`), o(`where k>=2 and a==1`), o(`where s=="x" or a==2`), o(`search x`), o(`where k>1 or not (a==1)`),
-		o(`cut k,a`), o(`cut k`), o(`drop a`), o(`put a:=k+1`), o(`put k:=a`), o(`put n:=s`), o(`rename x:=k`), o(`yield {k,a}`), o(`yield k`),
+		o(`cut k,a`), o(`cut k`), o(`drop a`), o(`put a:=k+1`), o(`put k:=a`), o(`cut k:=a`), o(`cut k:=a,s`), o(`cut x:=k,a`), o(`put n:=s`), o(`rename x:=k`), o(`yield {k,a}`), o(`yield k`),
 		o(`sort k`), o(`sort -r k`), o(`sort a,k`), o(`sort k desc`), o(`sort -nulls first k`),
 		o(`head 2`), o(`tail 2`), o(`uniq`), o(`fuse`), o(`pass`),
 		u(`count()`), u(`summarize count() by k`), u(`summarize s:=sum(a) by k`), u(`summarize c:=count() by k with -limit 1`), u(`summarize m:=max(a),n:=min(a) by s`), u(`summarize collect(a) by k`),
@@ -134,6 +134,14 @@ func c07Alphabet() []c07Op {
 		o(`over l => ( yield this+1 )`),
 		o(`fork (=> where a==1 | put side:="L" => where a!=1 | put side:="R") | inner join on k=k rs:=side | sort this`),
 	}
+}
+
+func c07Long() string {
+	var b strings.Builder
+	for i := 0; i < 250; i++ {
+		fmt.Fprintf(&b, "{k:%d,a:%d,s:%q}\n", i, i%7, []string{"x", "y", "z"}[i%3])
+	}
+	return b.String()
 }
 
 type c07Input struct {
@@ -150,6 +158,9 @@ func c07Inputs() []c07Input {
 		{"heterogeneous", `{a:1} {k:"s",a:2} {k:1,a:3,l:[1,2]} {k:null(int64)} 5 {k:1.5,a:1,s:"x"} {k:1,a:1,s:"x"} {k:1,a:1,s:"x"}`, nil},
 		{"declared k asc", `{k:1,a:2,s:"x"} {k:1,a:1,s:"y"} {k:2,a:1,s:"x"} {k:3,a:3,s:"z",l:[3]} {k:null(int64),a:4,s:"x"} {a:1,s:"x"}`, &asc},
 		{"declared k desc", `{a:1,s:"x"} {k:null(int64),a:4,s:"x"} {k:3,a:3,s:"z",l:[3]} {k:2,a:1,s:"x"} {k:1,a:2,s:"x"} {k:1,a:1,s:"y"}`, &desc},
+		// more than two batches of the stream reader, so that streaming operators that
+		// release results as their (assumed) sorted input advances do so mid-stream
+		{"declared k asc, 250 values", c07Long(), &asc},
 	}
 }
 
@@ -329,7 +340,7 @@ func TestC07(t *testing.T) {
 	run.Set("cases_skipped_because_the_unoptimized_plan_hangs", referenceHangs)
 	run.Set("evaluations", nprogs+lakeCases+int64(corpusN))
 	run.Set("exhaustive", !past)
-	run.Set("rule", "programs: every pipeline of length <= 2 (3 in thorough; quick adds all length-3 pipelines over a 12-operator sub-alphabet) over a 37-operator alphabet (filters incl. search, cut/drop/put/rename/yield, sorts, head/tail/uniq/fuse/pass, summarize with by / -limit, fork, switch, merge, over, join), skipping operators that need a defined order right after one that leaves it undefined; x 4 stream inputs (plain, heterogeneous shapes with missing/mixed-type keys and a non-record, declared sorted k asc, declared sorted k desc with the input really sorted) and, for length <= 2, pool scans of an asc and a desc pool; plus the repository's ztest programs with their own inputs and compiler/parser/valid.zed. Each program is run twice from one analyzed job: Build without Optimize, and Optimize then Build; outputs must be equal as sequences when every operator preserves order, as multisets otherwise; an error on one side only is a disagreement")
+	run.Set("rule", "programs: every pipeline of length <= 2 (3 in thorough; quick adds all length-3 pipelines over a 12-operator sub-alphabet) over a 40-operator alphabet (filters incl. search, cut (plain and with assignments to and from the key)/drop/put/rename/yield, sorts, head/tail/uniq/fuse/pass, summarize with by / -limit, fork, switch, merge, over, join), skipping operators that need a defined order right after one that leaves it undefined; x 4 stream inputs (plain, heterogeneous shapes with missing/mixed-type keys and a non-record, declared sorted k asc, declared sorted k desc with the input really sorted) and, for length <= 2, pool scans of an asc and a desc pool; plus the repository's ztest programs with their own inputs and compiler/parser/valid.zed. Each program is run twice from one analyzed job: Build without Optimize, and Optimize then Build; outputs must be equal as sequences when every operator preserves order, as multisets otherwise; an error on one side only is a disagreement")
 	run.Assume("the unoptimized plan (kernel executing the analyzed DAG as is) is the reference semantics")
 	run.Assume("programs whose result is legitimately under-determined (head/tail/uniq/collect/merge after an aggregation or fork) are not generated; corpus programs whose two runs both fail are skipped")
 }
@@ -366,7 +377,7 @@ func c07Compare(report func(string, map[string]any), where, src, input string, r
 		mu.Lock()
 		*disagreements++
 		mu.Unlock()
-		report(fmt.Sprintf("%s symptom=only-one-plan-fails ops=%s", strings.Fields(where)[0], c07Shape(src)), map[string]any{"where": where, "program": src, "input": input, "unoptimized_error": fmt.Sprint(err1), "optimized_error": fmt.Sprint(err2)})
+		report(fmt.Sprintf("%s symptom=only-one-plan-fails program=%q input=%s", strings.Fields(where)[0], src, rep.Short(input, 60)), map[string]any{"ops": c07Shape(src), "where": where, "program": src, "input": input, "unoptimized_error": fmt.Sprint(err1), "optimized_error": fmt.Sprint(err2)})
 		return
 	}
 	same := sameMultiset(raw, opt)
@@ -381,8 +392,23 @@ func c07Compare(report func(string, map[string]any), where, src, input string, r
 		if sameMultiset(raw, opt) {
 			kind = "different-order"
 		}
-		report(fmt.Sprintf("%s symptom=optimized-plan-%s ops=%s", strings.Fields(where)[0], kind, c07Shape(src)), map[string]any{"where": where, "program": src, "input": input, "unoptimized": raw, "optimized": opt})
+		if extra, missing := msSub(opt, raw), msSub(raw, opt); len(missing) == 0 && len(extra) > 0 && allErrorValues(extra) {
+			// one recorded defect class: merged filters emit an error value where the
+			// sequence of filters drops the input value
+			report(fmt.Sprintf("%s symptom=optimized-plan-emits-error-values-the-analyzed-plan-drops ops=%s input=%s", strings.Fields(where)[0], c07Shape(src), rep.Short(input, 60)), map[string]any{"where": where, "program": src, "input": input, "unoptimized": raw, "optimized": opt})
+			return
+		}
+		report(fmt.Sprintf("%s symptom=optimized-plan-%s program=%q input=%s", strings.Fields(where)[0], kind, src, rep.Short(input, 60)), map[string]any{"ops": c07Shape(src), "where": where, "program": src, "input": input, "unoptimized": raw, "optimized": opt})
 	}
+}
+
+func allErrorValues(vals []string) bool {
+	for _, v := range vals {
+		if !strings.HasPrefix(v, "error(") {
+			return false
+		}
+	}
+	return true
 }
 
 // c07Shape abstracts a program to its operator names.
